@@ -95,7 +95,7 @@ func (f *sfork) clone() *sfork {
 	return n
 }
 
-func (f *sfork) fresh() int { f.nreg++; return f.nreg - 1 }
+func (f *sfork) fresh() int    { f.nreg++; return f.nreg - 1 }
 func (f *sfork) emit(it sitem) { f.items = append(f.items, it) }
 func (f *sfork) op(it fitem)   { it.kind = "op"; f.items = append(f.items, sitem{fitem: it}) }
 func (f *sfork) stopped() bool { return f.returned || f.brk || f.cont || f.dead }
@@ -136,14 +136,14 @@ func (c contract) lean() string {
 }
 
 type sw struct {
-	pkgs      []*Pkg
-	index     map[string]sfunc
-	contracts []contract
-	err       error
-	depth     int
-	entry     string
-	globals   map[string]*sbind // package-level FieldVal variables (root package), by name
-	bigInRange bool             // adaptor contract: *big.Int coordinates are in [0, P)
+	pkgs       []*Pkg
+	index      map[string]sfunc
+	contracts  []contract
+	err        error
+	depth      int
+	entry      string
+	globals    map[string]*sbind // package-level FieldVal variables (root package), by name
+	bigInRange bool              // adaptor contract: *big.Int coordinates are in [0, P)
 }
 
 type frame struct {
@@ -1680,18 +1680,18 @@ type sliceSpec struct {
 }
 
 var sliceSpecs = map[string]sliceSpec{
-	rootPath + ".ScalarMultNonConst":     {outParams: []string{"result"}},
-	rootPath + ".ScalarBaseMultNonConst": {outParams: []string{"result"}},
-	rootPath + ".bigAffineToJacobian":    {bigInRange: true, outParams: []string{"result"}},
-	rootPath + ".KoblitzCurve.IsOnCurve": {bigInRange: true},
-	rootPath + ".KoblitzCurve.Add":       {bigInRange: true},
-	rootPath + ".KoblitzCurve.Double":    {bigInRange: true},
-	rootPath + ".KoblitzCurve.ScalarMult": {bigInRange: true},
-	rootPath + "/ecckd.asFV":             {bigInRange: true},
+	rootPath + ".ScalarMultNonConst":            {outParams: []string{"result"}},
+	rootPath + ".ScalarBaseMultNonConst":        {outParams: []string{"result"}},
+	rootPath + ".bigAffineToJacobian":           {bigInRange: true, outParams: []string{"result"}},
+	rootPath + ".KoblitzCurve.IsOnCurve":        {bigInRange: true},
+	rootPath + ".KoblitzCurve.Add":              {bigInRange: true},
+	rootPath + ".KoblitzCurve.Double":           {bigInRange: true},
+	rootPath + ".KoblitzCurve.ScalarMult":       {bigInRange: true},
+	rootPath + "/ecckd.asFV":                    {bigInRange: true},
 	rootPath + "/ecckd.ExtendedKey.ChildWithIL": {bigInRange: true},
-	rootPath + "/ecckd.ExtendedKey.Child": {bigInRange: true},
-	rootPath + ".PublicKey.AsJacobian":   {outParams: []string{"result"}},
-	rootPath + ".JacobianPoint.Set":      {outParams: []string{"p"}},
+	rootPath + "/ecckd.ExtendedKey.Child":       {bigInRange: true},
+	rootPath + ".PublicKey.AsJacobian":          {outParams: []string{"result"}},
+	rootPath + ".JacobianPoint.Set":             {outParams: []string{"p"}},
 }
 
 // functions handled by other passes or outside the analysed surface
